@@ -36,8 +36,14 @@ Accepted subset (anything else raises TranslateError with file:line):
              local list, or a parameter SPECS marks as mutated - its final value is
              part of the generated function's result);  if / elif / else;
              for pos, c in enumerate(string) / for x in string-or-list (no else;
-             the iterated list is not mutated in the body);  while cond (no else;
-             fuel from SPECS);  break, continue, return e;  docstrings;  pass.
+             the iterated list is not mutated in the body, except that a list the
+             function owns may be stored into by `x[i] = e` - nothing else - while it
+             is iterated: the loop then reads x[pos] from the current list, as
+             Python's list iterator does);  while cond (no else; fuel from SPECS);
+             break, continue, return e;  docstrings;  pass.
+             `if a and b:` / `if a or b:` where a later operand contains an operation
+             that can raise is read as the nested conditionals it abbreviates
+             (`if a: if b: S else: T else: T`, resp. `if a: S else: if b: S else: T`).
              Plain aliasing of a list (x = y) is refused.  A variable first
              assigned inside a loop body or on one side of a conditional only is
              not visible afterwards.
@@ -50,8 +56,13 @@ Accepted subset (anything else raises TranslateError with file:line):
              s.lower();  c.lower(), c.isdigit(), c.isalpha(), c.isupper() on one
              character;  ''.join(string);  ''.join(e for c in string);
              (string, label) with label = None, 'Y1', 'X1', 'E', 'W' or
-             'K'/'A'/'D'/'O' + str(int);  truth value of a string / list / "T or
-             None" / bool in a condition.
+             'K'/'A'/'D'/'O' + str(int), also written f'D{int}' (no conversion, no
+             format specification);  truth value of a string / list / "T or None" /
+             bool in a condition.
+  layout     the variables a loop / a conditional carries are put into the generated
+             tuples in a canonical order (by type, variables of one type in the order
+             of their first binding), so that moving independent statements around
+             does not change the generated term.
   PCFGPasswordParser.parse: the calls of the detectors in order (the ones of SPECS
              as translated; detect_keyboard_walk, email_detection and
              website_detection as parameters of the generated section: their
@@ -86,6 +97,10 @@ import common  # noqa: E402
 from translate_kernel import TranslateError, _paren, _close, _comment  # noqa: E402
 
 OUT = os.path.join("gen", "Detect_gen.v")
+
+
+class NeedsHoist(TranslateError):
+    """an operation that can raise occurs where the caller allows none"""
 D = "lib_trainer/detection_rules/"
 
 # ------------------------------------------------------------------ types
@@ -179,7 +194,7 @@ LABEL_LEN = {"K": "LK", "A": "LA", "D": "LD", "O": "LO"}
 BUILTINS_USED = {"len", "str", "enumerate"}
 
 # identifiers the generated text uses itself: a Python variable of that name is refused
-RESERVED = set("""fuel_ tt true false fst snd length len slice sfrom sto getc find lower lower_c isalpha isdigit isupper
+RESERVED = set("""for_live for_enum_live for_each_live fuel_ tt true false fst snd length len slice sfrom sto getc find lower lower_c isalpha isdigit isupper
 mwparse str_eqb nonempty flat_map app nil cons list nat bool unit option Some None O S Z N fun let in if then else match with
 end forall exists Type Prop Set as at return fix cofix struct where Definition Fixpoint Section End Variable Variables
 ctl Next Continue Break Return Raise bind run for_from for_enum for_each while_ lget sub_s sub_l call llen append extend
@@ -210,6 +225,19 @@ class Ctx:
     def __init__(self, out, loop):
         self.out = out        # names whose values the block's Next carries
         self.loop = loop      # loop-carried names of the innermost loop, None outside loops
+
+
+TYPE_RANK = {BOOL: 0, Z: 1, CHAR: 2, STR: 3, LABEL: 4, SECTION: 5, SECLIST: 6, STRLIST: 7, EMPTYLIST: 8}
+
+
+def canonical(names, env):
+    """the carried variables in an order that does not depend on where the statements of the block stand:
+    by type, variables of one type in the order in which they were first bound; names not bound yet
+    (assigned on both sides of a conditional) last, in order of occurrence"""
+    pos = {n: i for i, n in enumerate(env.types)}
+    known = sorted((n for n in names if n in env.types),
+                   key=lambda n: (TYPE_RANK.get(env.types[n], 9 if is_opt(env.types[n]) else 10), pos[n]))
+    return known + [n for n in names if n not in env.types]
 
 
 def tuple_text(names):
@@ -296,8 +324,11 @@ class FunctionTranslator:
 
     def hoist(self, node, H, head, prefix):
         if H is None:
-            self.fail(node, "an operation that can raise is used where Python evaluates it conditionally "
-                            "(or in a loop condition): not supported")
+            try:
+                self.fail(node, "an operation that can raise is used where Python evaluates it conditionally "
+                                "(or in a loop condition): not supported")
+            except TranslateError as e:
+                raise NeedsHoist(str(e))
         v = self.fresh(prefix)
         H.append("%s (fun %s =>" % (head, v))
         return v
@@ -317,6 +348,15 @@ class FunctionTranslator:
             if ty != Z:
                 self.fail(e, "str(...) of a value of type %s in a label" % tname(ty))
             return "Some (%s %s)" % (LABEL_LEN[e.left.value], _paren(t))
+        # f'D{n}': the same string as 'D' + str(n) for an int n (no conversion, no format specification)
+        if isinstance(e, ast.JoinedStr) and len(e.values) == 2 and isinstance(e.values[0], ast.Constant) \
+                and type(e.values[0].value) is str and e.values[0].value in LABEL_LEN \
+                and isinstance(e.values[1], ast.FormattedValue) and e.values[1].conversion == -1 \
+                and e.values[1].format_spec is None:
+            t, ty = self.expr(e.values[1].value, env, H)
+            if ty != Z:
+                self.fail(e, "{...} of a value of type %s in a label" % tname(ty))
+            return "Some (%s %s)" % (LABEL_LEN[e.values[0].value], _paren(t))
         return None
 
     def int_const(self, e):
@@ -942,14 +982,39 @@ class FunctionTranslator:
                 return test.left.id, False
         return None, None
 
+    def split_test(self, s, env):
+        """`if a and b: S else: T` is `if a: (if b: S else: T) else: T`, `if a or b: S else: T` is
+        `if a: S else: (if b: S else: T)`: used when a later operand contains an operation that can raise
+        (it is evaluated only if the earlier ones do not decide)"""
+        t = s.test
+        if not (isinstance(t, ast.BoolOp) and len(t.values) >= 2):
+            return None
+        uid = self.uid
+        try:
+            for v in t.values[1:]:
+                self.truth(v, env, None)
+            return None
+        except NeedsHoist:
+            pass
+        finally:
+            self.uid = uid
+        later = t.values[1] if len(t.values) == 2 else ast.copy_location(ast.BoolOp(op=t.op, values=t.values[1:]), t)
+        inner = ast.copy_location(ast.If(test=later, body=list(s.body), orelse=list(s.orelse)), s)
+        if isinstance(t.op, ast.And):
+            return ast.copy_location(ast.If(test=t.values[0], body=[inner], orelse=list(s.orelse)), s)
+        return ast.copy_location(ast.If(test=t.values[0], body=list(s.body), orelse=[inner]), s)
+
     def if_(self, s, rest, env, ctx, ind, at):
+        split = self.split_test(s, env)
+        if split is not None:
+            return self.if_(split, rest, env, ctx, ind, at)
         H = []
         c = self.truth(s.test, env, H)
         body, orelse = list(s.body), list(s.orelse)
         both = self.assigned(body + orelse)
         da, db = self.definite(body), self.definite(orelse)
         new = set() if (da is None and db is None) else db if da is None else da if db is None else (da & db)
-        names = [n for n in both if n in env.types or n in new]
+        names = canonical([n for n in both if n in env.types or n in new], env)
         # inside the branch where the test shows x is not None, x is the value itself
         nx, pos = self.narrowing(s.test)
         narrow = nx is not None and is_opt(env.types.get(nx)) and nx not in both
@@ -1000,7 +1065,7 @@ class FunctionTranslator:
         for n in names:
             if env.types[n] == MWD:
                 self.fail(s, "the multi-word detector is rebound")
-        return names
+        return canonical(names, env)
 
     def for_(self, s, rest, env, ctx, ind, at):
         if s.orelse:
@@ -1034,9 +1099,15 @@ class FunctionTranslator:
             binders.append((x, ELEM[tl]))
         else:
             self.fail(s, "loop over a value of type %s" % tname(tl))
+        live = None
         for m in ast.walk(lst):
             if isinstance(m, ast.Name) and m.id in names and env.types[m.id] in LISTS:
-                self.fail(s, "the iterated list is mutated in the loop")
+                # the body stores into the list it iterates over: accepted for `x[i] = e` only (the length cannot
+                # change); Python's list iterator then reads x[pos] from the current list
+                if m is not lst or tl not in (SECLIST, STRLIST) or lst.id not in env.owned:
+                    self.fail(s, "the iterated list is mutated in the loop")
+                self.only_item_stores(s, lst.id)
+                live = lst.id
         inner = env.copy()
         for n, ty in binders:
             if n in env.types:
@@ -1046,11 +1117,47 @@ class FunctionTranslator:
         if len({n for n, _ in binders}) != len(binders):
             self.fail(s, "loop variables collide")
         tup, pat = tuple_text(names)
-        text = self.line(ind, "bind (%s %s %s (fun %s %s =>" % (head, _paren(l), _paren(tup), " ".join(n for n, _ in binders), pat), s)
+        if live:
+            text = self.line(ind, "bind (%s_live %s %s (fun %s => %s) (fun %s %s =>" % (
+                head, _paren(l), _paren(tup), pat, live, " ".join(n for n, _ in binders), pat), s)
+        else:
+            text = self.line(ind, "bind (%s %s %s (fun %s %s =>" % (
+                head, _paren(l), _paren(tup), " ".join(n for n, _ in binders), pat), s)
         text += _close(self.block(list(s.body), inner, Ctx(names, names), ind + 2, s), ")) (fun %s =>" % pat)
         self.after_loop(s, names, env, inner)
         text += _close(self.block(rest, env, ctx, ind, at), ")")
         return self.wrap(H, ind, text)
+
+    def only_item_stores(self, loop, x):
+        """the body of `loop` changes the list x by `x[i] = e` only"""
+        for st in loop.body:
+            for n in ast.walk(st):
+                bad = False
+                if isinstance(n, ast.Assign):
+                    for t in n.targets:
+                        for m in ([t] if not isinstance(t, ast.Tuple) else t.elts):
+                            if isinstance(m, ast.Name) and m.id == x:
+                                bad = True
+                            if isinstance(m, ast.Subscript) and isinstance(m.value, ast.Name) and m.value.id == x \
+                                    and isinstance(m.slice, ast.Slice):
+                                bad = True
+                elif isinstance(n, (ast.AugAssign, ast.AnnAssign)):
+                    m = n.target
+                    bad = (isinstance(m, ast.Name) and m.id == x) or \
+                        (isinstance(m, ast.Subscript) and isinstance(m.value, ast.Name) and m.value.id == x)
+                elif isinstance(n, ast.Delete):
+                    bad = any(isinstance(m, ast.Name) and m.id == x for t in n.targets for m in ast.walk(t))
+                elif isinstance(n, ast.Call):
+                    f = n.func
+                    if isinstance(f, ast.Attribute) and isinstance(f.value, ast.Name) and f.value.id == x:
+                        bad = True          # any method of the list
+                    if any(isinstance(a, ast.Name) and a.id == x for a in n.args) and not \
+                            (isinstance(f, ast.Name) and f.id == "len"):
+                        bad = True          # passed on to a callee
+                elif isinstance(n, ast.For) and any(isinstance(m, ast.Name) and m.id == x for m in ast.walk(n.target)):
+                    bad = True
+                if bad:
+                    self.fail(n, "the iterated list %r is changed in the loop other than by `%s[i] = e`" % (x, x))
 
     def after_loop(self, s, names, env, inner):
         for n in names:
@@ -1114,8 +1221,6 @@ class FunctionTranslator:
         out = "Definition %s %s : option %s :=\n" % (spec["coq"], params, _paren(self.result_type()))
         if self.uses_fuel:
             out += "  let fuel_ := %s in\n" % spec["fuel"].format(*self.params)
-        elif "fuel" in spec:
-            self.fail(fn, "the translator has fuel for a while loop, the function has none")
         out += "  run (\n" + _close(body, ").")
         return out
 
